@@ -11,7 +11,11 @@
 (***************************************************************************)
 EXTENDS GoNamesCases, Json
 
-CONSTANTS Alphabet, MaxLen, Ops
+CONSTANTS AlphabetName, MaxLen, Ops
+
+\* "ident": a b A _ 1 .      "runes": g o A _ 1 - e-acute ARABIC-INDIC-3 SUPERSCRIPT-2 SNOWMAN and the raw byte 0xFF
+Alphabet == IF AlphabetName = "ident" THEN {97, 98, 65, 95, 49, 46}
+            ELSE {103, 111, 65, 95, 49, 45, 233, 1635, 178, 9731, -255}
 
 AlphaClass(c) == CASE c = 233 -> 1 [] c = 223 -> 1 [] c = 19990 -> 1 [] c = 1635 -> 2 [] OTHER -> 0
 ClsOf(s) == [i \in 1..Len(s) |-> Class(s[i], AlphaClass(s[i]))]
@@ -41,7 +45,10 @@ FieldMaskRoundTrip == (Ascii(s) /\ FieldMaskAccepts(s)) =>
                          LET j == JSONCamelCase(s) IN
                          /\ \A i \in 1..Len(j) : j[i] # US
                          /\ FieldMaskDecodes(j) /\ JSONSnakeCase(j) = s
-Laws == /\ (Ascii(s) => (CamelTwoDefinitions /\ CamelExported /\ CamelIdempotent))
+\* the two formulations of the Go identifier grammar agree on ASCII
+IdentGrammars == Ascii(s) => (IsGoIdent(s) <=> IsGoIdentC(s, AsciiClasses(s)))
+Laws == /\ IdentGrammars
+        /\ (Ascii(s) => (CamelTwoDefinitions /\ CamelExported /\ CamelIdempotent))
         /\ SanitizedIsIdent /\ SanitizedKeeps /\ SnakeCamelCharacterised /\ FieldMaskRoundTrip
 
 \* ---- tour
